@@ -2,6 +2,7 @@ package main
 
 import (
 	"fmt"
+	"os"
 	"strings"
 )
 
@@ -49,6 +50,28 @@ func c03KWFixtureRule(fp *Prog, fr *Report) {
 		low := strings.ToLower(fn.Name())
 		if strings.HasPrefix(low, "good") || strings.HasPrefix(low, "bad") {
 			c03CheckCounterEncoding(fp, fr, "fixture", FuncName(fp, fn), fn, 32)
+		}
+	}
+}
+
+// c03UnpadFixtureRule runs the unpad branch-fact rules on fixtures/c03unpad.
+func c03UnpadFixtureRule(fp *Prog, fr *Report) {
+	fr.Rule("fixture", "unpad bounds and verification loop", 0)
+	for _, fn := range fp.Funcs {
+		if fn.Parent() != nil {
+			continue
+		}
+		low := strings.ToLower(fn.Name())
+		if strings.HasPrefix(low, "good") || strings.HasPrefix(low, "bad") {
+			c03CheckUnpad(fp, fr, "fixture", fn)
+		}
+	}
+	if os.Getenv("KC_C03_DEBUG") == "unpadfix" {
+		for _, o := range fr.Obs {
+			fmt.Fprintf(os.Stderr, "FIX %s | %s | %.110s\n", o.Construct, o.Status, o.Message)
+		}
+		for _, u := range fr.Undecided {
+			fmt.Fprintf(os.Stderr, "FIX-UNDECIDED %.160s\n", u)
 		}
 	}
 }
